@@ -479,3 +479,81 @@ def ind(ls):
 def optimizer_program(rng, caps=None):
     g = OptGen(rng, caps)
     return g.program(), sorted(g.features)
+
+
+# ---- C20: programs inside the class of the fuzzer property ------------------------------------
+
+# identifiers the transformer introduces: a program that uses them itself is outside the class
+RESERVED = ["count_once", "_i", "lhs_init", "mul_res", "mul_count"]
+# integer literals far from the overflow boundary of `n * 4711`; floats far from the rounding boundary
+CLASS_INT_POOL = [0, 1, 2, 3, 5, 7, 10, 42, 100, 255, 1000, 65536, 1000003, 2**31 - 1, 2**31, 2**40, -1, -2, -7, -1000]
+CLASS_FLOAT_POOL = ["0.5", "1.5", "2.25", "10.0", "3.0", "0.125", "100.75", "7f", "1024.0"]
+
+
+def split_top(s):
+    """'(A op B)' -> (A, op, B) for the top-level binary operator of a fully parenthesised
+    expression text, or None."""
+    if not (s.startswith("(") and s.endswith(")")):
+        return None
+    depth = 0
+    in_str = False
+    i = 1
+    while i < len(s) - 1:
+        c = s[i]
+        if in_str:
+            if c == "\\":
+                i += 1
+            elif c == '"':
+                in_str = False
+        elif c == '"':
+            in_str = True
+        elif c in "([{":
+            depth += 1
+        elif c in ")]}":
+            depth -= 1
+        elif c == " " and depth == 0:
+            j = s.find(" ", i + 1)
+            if j > 0 and s[i + 1:j] in ("*", "+", "-", "/", "%", "|", "&", "^", "<<", ">>", "**"):
+                return s[1:i], s[i + 1:j], s[j + 1:-1]
+        i += 1
+    return None
+
+
+class FGen(progs.Gen):
+    """progs.Gen restricted to the class of C20: every operand of an operator is free of calls,
+    effects and faults (so reordering or duplicating it is unobservable), the right operand of an
+    integer multiplication is a small non-negative literal, literals are far from the overflow
+    and rounding boundaries, no reserved identifier, no position is printed."""
+
+    def __init__(self, rng, **kw):
+        kw.setdefault("fault_rate", 0.0)
+        kw.setdefault("allow_lambda", False)
+        super().__init__(rng, **kw)
+
+    def expr(self, ty, scopes, depth, pure=False):
+        s = super().expr(ty, scopes, depth, True)
+        if ty == T_INT:
+            t = split_top(s)
+            if t and t[1] == "*":
+                self.features.add("mul-small-literal")
+                return f"({t[0]} * {self.r.choice([0, 1, 2, 3, 4, 7, 9])})"
+        return s
+
+    def pure_int(self, scopes):
+        s = super().pure_int(scopes)
+        t = split_top(s)
+        if t and t[1] == "*":
+            return f"({t[0]} * {self.r.choice([0, 1, 2, 3, 5])})"
+        return s
+
+
+def inclass_program(rng, **kw):
+    saved = (progs.INT_POOL, progs.FLOAT_POOL)
+    progs.INT_POOL, progs.FLOAT_POOL = CLASS_INT_POOL, CLASS_FLOAT_POOL
+    try:
+        g = FGen(rng, **kw)
+        src = g.program()
+    finally:
+        progs.INT_POOL, progs.FLOAT_POOL = saved
+    src = re.sub(r", (e\d+)\.line, \1\.column", "", src)
+    return src, sorted(g.features)
